@@ -8,6 +8,8 @@ import LpProofs.C20.IO
 -- Save_Function, Interpolation_2D()): the property theorems live in these two modules
 import LpProofs.C20.Cover
 import LpProofs.C20.Cover2
+-- character level of the export/import round trip (parseDec ∘ render, tokenizer, bytes)
+import LpProofs.C20.Bytes
 namespace Lp.C20
 
 /-! ## Initialisation order -/
@@ -119,8 +121,8 @@ open Lp.Dec
 /-- **fmt6_roundtrip** (token level): for every rational `x ≠ 0` the number written by
     `ostream << x` is a six-digit decimal `±m·10^(e'−5)`, `10^5 ≤ m < 10^6`, whose value `v`
     (what `>>` reads back) satisfies `|v − x| ≤ ½·10^(e(x)−5)`, `e(x) = ⌊log₁₀|x|⌋`.
-    (Character level — `parseDec (render d) = d.value` — is validated by the driver on every
-    request and by the `example`s below, not proved.) -/
+    (Character level — `parseDec (render d) = d.value` — is `parseDec_render` /
+    `fmt6_roundtrip_chars` below; the driver still validates it on every request.) -/
 theorem fmt6_roundtrip (x : ℚ) (hx : x ≠ 0) :
     ∃ d : Dec6, tokOf x = .num d ∧ fmt6 x = render d ∧ (tokOf x).value = some d.value ∧
       100000 ≤ d.m ∧ d.m ≤ 999999 ∧
@@ -254,6 +256,177 @@ theorem list_roundtrip (data : List ℚ) (u : ℚ) (header : List (List Tok)) :
     apply ih
     intro t ht
     exact hnum t (by simp only [List.map_cons, List.flatten_cons, List.singleton_append, List.mem_cons]; exact Or.inr ht)
+
+/-! ## Character level of one value -/
+
+/-- **parseDec_render** (restated for the obligations list; proof in `LpProofs/C20/Chars.lean`, by
+    induction over the digit lists through core's `Nat.toDigits` / `Nat.ofDigitChars` lemmas):
+    parsing the rendered STRING of a six-digit decimal returns exactly its value — every sign, every
+    mantissa `< 10^6`, every exponent; scientific branch (`e < −4 ∨ e ≥ 6`, exponent with sign and at
+    least two digits), fixed branch with the point inside, fixed branch `0.000ddd`; trailing zeros
+    and the bare point stripped. -/
+theorem parseDec_render_all (d : Dec6) (hm : 100000 ≤ d.m ∧ d.m ≤ 999999) :
+    parseDec (render d) = some d.value ∧ parseDec ['0'] = some 0 :=
+  ⟨parseDec_render d (by omega), parseDec_zero⟩
+
+example : (100000 ≤ (⟨true, 250000, -7⟩ : Dec6).m ∧ (⟨true, 250000, -7⟩ : Dec6).m ≤ 999999) := by decide
+
+/-- **fmt6_roundtrip_chars** (character level of `fmt6_roundtrip`): the characters `ostream << x`
+    writes parse (`istream >> y`) to a value within half a unit of the sixth significant digit of `x` -/
+theorem fmt6_roundtrip_chars (x : ℚ) (hx : x ≠ 0) :
+    ∃ v, parseDec (fmt6 x) = some v ∧ |v - x| ≤ 1 / 2 * pow10 (expo10 |x| - 5) := by
+  obtain ⟨d, hd, hb, _, hm⟩ := tokOf_bound x hx
+  refine ⟨d.value, ?_, hb⟩
+  unfold fmt6
+  rw [hd]
+  exact parseDec_render d (by omega)
+
+example : ∃ v, parseDec (fmt6 (1234567 / 1000)) = some v ∧ v = 123457 / 100 := ⟨_, by decide +kernel, rfl⟩
+
+theorem fmt6_zero_chars : parseDec (fmt6 0) = some 0 := by
+  rw [fmt6_zero.1]; exact parseDec_zero
+
+/-- **render_no_separator**: a rendered six-digit decimal (any sign, mantissa, exponent) is not
+    empty and consists of digits, `-`, `+`, `.`, `e` only; in particular it contains no blank, tab,
+    line feed, carriage return, vertical tab or form feed; the same for everything `fmt6` writes -/
+theorem render_no_separator (d : Dec6) :
+    render d ≠ [] ∧ (∀ c ∈ render d, OkChar c) ∧ NoWs (render d) ∧ NoNl (render d) :=
+  ⟨render_ne_nil d, render_chars d, fun c hc => okChar_not_ws (render_chars d c hc),
+    fun c hc => okChar_ne_nl (render_chars d c hc)⟩
+
+theorem fmt6_no_separator (x : ℚ) : fmt6 x ≠ [] ∧ NoWs (fmt6 x) ∧ NoNl (fmt6 x) := fmt6_noWs x
+
+/-- **line_tokenize**: splitting a rendered table line `r₁ \t r₂ \t … \t r_k` on white space returns
+    exactly the `k` rendered strings (any `k`, any values) -/
+theorem line_tokenize (ys : List ℚ) : splitWs (joinWith '\t' (ys.map fmt6)) [] = ys.map fmt6 := by
+  apply splitWs_joinWith_tokens '\t' (by decide)
+  intro t ht
+  obtain ⟨y, _, rfl⟩ := List.mem_map.mp ht
+  exact ⟨(fmt6_noWs y).1, (fmt6_noWs y).2.1⟩
+
+example : String.ofList (joinWith '\t' ([1, -5 / 2, 0].map fmt6)) = "1\t-2.5\t0" := by decide +kernel
+
+/-! ## Export / import at BYTE level -/
+
+/-- **export_import_bytes_roundtrip**: for every rectangular table of rationals (`r ≥ 1` rows,
+    `c ≥ 1` columns), every header text (any number `h` of lines, each shorter than the 10000
+    characters `ignore` skips at most), no unit factors or one non-zero factor per column, and every
+    written six-digit value in the finite `double` range: `Export_Table` succeeds; `Count_Lines` of
+    the BYTES it writes is `h + r`; lexing those bytes the way the import does (`h` × `ignore`, then
+    `>>` tokens) yields exactly the `r·c` renderings in row order; and `Import_Table` of the bytes
+    with `ignored_initial_lines = h` and the same unit factors returns the table of the same shape
+    whose entry `(i,j)` is `back x_ij u_j` — the six-digit value of `x_ij/u_j` times `u_j`, hence
+    within half a unit of the sixth significant digit (`back_bound`). -/
+theorem export_import_bytes_roundtrip (data : List (List ℚ)) (dims : List ℚ) (header : List Char) (c : ℕ)
+    (hr : data ≠ []) (hc : 1 ≤ c) (hrect : ∀ row ∈ data, row.length = c)
+    (hd : dims = [] ∨ dims.length = c) (_hu : ∀ u ∈ dims, u ≠ 0)
+    (hh : ∀ l ∈ headerLinesC header, l.length < 10000)
+    (hfin : ∀ row ∈ data, ∀ t ∈ exportRowT dims row, InDbl (tokVal t)) :
+    ∃ bytes, exportTable data dims header = .ok bytes ∧
+      countLines bytes = headerLineCount header + data.length ∧
+      lexFile bytes (headerLineCount header)
+        = (data.map (fun row => (exportRowT dims row).map Tok.chars)).flatten ∧
+      importTable bytes dims (headerLineCount header)
+        = .ok (data.map (fun row => List.zipWith back row (unitRow dims row))) := by
+  have hne : ∀ row ∈ data, row ≠ [] := by
+    intro row hrow h
+    have := hrect row hrow
+    subst h
+    simp only [List.length_nil] at this
+    omega
+  have hg := guard_of_rect hrect hd
+  have hcount := countLines_export data dims header hr hne
+  have hlex : lexFile (joinWith nl (headerLinesC header ++ data.map (rowLine dims))) (headerLineCount header)
+      = ((data.map (exportRowT dims)).flatten).map Tok.chars := by
+    rw [lexFile_export data dims header hr hh, List.map_flatten, List.map_map]
+    congr 1
+    apply List.map_congr_left
+    intro row hrow
+    exact rowToksC_eq_T dims row
+      (by rcases hd with h | h; exact Or.inl h; exact Or.inr (by rw [h, hrect row hrow]))
+  refine ⟨_, exportTable_lines data dims header hr hne hg, hcount, ?_, ?_⟩
+  · rw [hlex, List.map_flatten, List.map_map]; rfl
+  · -- the token-level round trip, with `h` (empty) header token lines
+    obtain ⟨f, hf, _, _, himp⟩ :=
+      table_roundtrip data dims (List.replicate (headerLineCount header) []) c hr hc hrect hd
+    have hfe : f = ⟨List.replicate (headerLineCount header) [], data.map (exportRowT dims)⟩ := by
+      unfold exportT at hf
+      split at hf
+      · cases hf
+      · cases hf; rfl
+    subst hfe
+    have hnum : ∀ t ∈ (data.map (exportRowT dims)).flatten, ∃ v, t.value = some v := by
+      intro t ht
+      obtain ⟨l, hl, htl⟩ := List.mem_flatten.mp ht
+      obtain ⟨row, _, rfl⟩ := List.mem_map.mp hl
+      obtain ⟨y, rfl⟩ := mem_exportRowT htl
+      exact tokOf_value_some y
+    unfold importT TFile.lines at himp
+    simp only at himp
+    rw [List.drop_left, readAll_num _ hnum] at himp
+    simp only [List.length_append, List.length_replicate, List.length_map] at himp
+    have hread : readAllC (((data.map (exportRowT dims)).flatten).map Tok.chars)
+        = .ok (((data.map (exportRowT dims)).flatten).map tokVal) := by
+      apply readAllC_toks
+      intro t ht
+      obtain ⟨l, hl, htl⟩ := List.mem_flatten.mp ht
+      obtain ⟨row, hrow, rfl⟩ := List.mem_map.mp hl
+      obtain ⟨y, hy⟩ := mem_exportRowT htl
+      exact ⟨by rw [hy]; exact parseDec_tokOf y, hfin row hrow t htl⟩
+    unfold importTable
+    rw [hlex, hread, hcount]
+    exact himp
+
+/-- non-vacuity: two header lines, two unit factors, fixed and scientific notation, a zero -/
+example : ∃ bytes, exportTable [[1, 5 / 2], [0, -1099511627776]] [1, 2] "# a\n# x\ty".toList = .ok bytes ∧
+    String.ofList bytes = "# a\n# x\ty\n1\t1.25\n0\t-5.49756e+11" ∧
+    headerLineCount "# a\n# x\ty".toList = 2 ∧ countLines bytes = 4 ∧
+    importTable bytes [1, 2] 2 = .ok [[1, 5 / 2], [0, -1099512000000]] := by
+  refine ⟨_, rfl, ?_⟩
+  decide +kernel
+
+example : InDbl (tokVal (tokOf (5 / 2))) ∧ InDbl (tokVal (tokOf 0)) :=
+  ⟨inDbl_tokOf _ (Or.inr (by decide +kernel)), inDbl_tokOf _ (Or.inl rfl)⟩
+
+/-- non-vacuity: the hypotheses of the theorem hold for this table, and the theorem's conclusion is
+    the round trip computed above -/
+example : ∃ bytes, exportTable [[1, 5 / 2], [0, -1099511627776]] [1, 2] "# a\n# x\ty".toList = .ok bytes ∧
+    countLines bytes = 2 + 2 ∧
+    importTable bytes [1, 2] 2 = .ok ([[1, 5 / 2], [0, -1099511627776]].map
+      (fun row => List.zipWith back row (unitRow [1, 2] row))) := by
+  obtain ⟨b, h1, h2, _, h4⟩ := export_import_bytes_roundtrip [[1, 5 / 2], [0, -1099511627776]] [1, 2]
+    "# a\n# x\ty".toList 2 (by decide) (by decide) (by decide +kernel) (by decide) (by decide +kernel)
+    (by decide +kernel) (by decide +kernel)
+  exact ⟨b, h1, h2, h4⟩
+
+example : ∃ bytes f, exportTable [[1, 5 / 2], [0, -1099511627776]] [1, 2] "# a\n# x\ty".toList = .ok bytes ∧
+    exportT [[1, 5 / 2], [0, -1099511627776]] [1, 2] (headerLinesT "# a\n# x\ty".toList) = .ok f ∧
+    glueOK bytes f = true :=
+  glue_proved _ _ _ 2 (by decide) (by decide) (by decide +kernel) (by decide)
+
+/-- **list_bytes_roundtrip**: `Import_List` of the BYTES `Export_List` writes (any header text with
+    lines shorter than 10000 characters, `ignored_initial_lines` = its line count, any unit `u`,
+    written values in the finite `double` range) returns `back x_i u` for every entry, in order -/
+theorem list_bytes_roundtrip (data : List ℚ) (u : ℚ) (header : List Char)
+    (hh : ∀ l ∈ headerLinesC header, l.length < 10000)
+    (hfin : ∀ x ∈ data, InDbl (tokVal (tokOf (x / u)))) :
+    importList (exportList data u header) u (headerLineCount header) = .ok (data.map (fun x => back x u)) := by
+  unfold importList exportList lexFile
+  rw [skipLines_header header _ hh, splitWs_listBody u data]
+  have h1 : data.map (fun x => fmt6 (x / u)) = (data.map (fun x => tokOf (x / u))).map Tok.chars := by
+    rw [List.map_map]; rfl
+  rw [h1, readAllC_toks]
+  · simp only [bind, Except.bind, pure, Except.pure, List.map_map]
+    rfl
+  · intro t ht
+    obtain ⟨x, hx, rfl⟩ := List.mem_map.mp ht
+    exact ⟨parseDec_tokOf _, hfin x hx⟩
+
+example : importList (exportList [1, 5 / 2, 1099511627776] 2 "# h".toList) 2 1 = .ok [1, 5 / 2, 1099512000000] := by
+  decide +kernel
+example : importList (exportList [1, 5 / 2, 1099511627776] 2 "# h".toList) 2 (headerLineCount "# h".toList)
+    = .ok ([1, 5 / 2, 1099511627776].map (fun x => back x 2)) :=
+  list_bytes_roundtrip _ _ _ (by decide +kernel) (by decide +kernel)
 
 /-- dimension mismatch → diagnostic (export and import) -/
 theorem exportT_mismatch (data : List (List ℚ)) (dims : List ℚ) (header : List (List Tok))
